@@ -14,11 +14,20 @@ def main():
     fd, path = tempfile.mkstemp(suffix=".xml"); os.close(fd)
     env = dict(os.environ); env.pop("TESTTOOLS_VERIF", None)
     try:
-        subprocess.run(["/venv/bin/python", "-m", "pytest", "-q", "-p", "no:cacheprovider",
-                        "--timeout=900", "--continue-on-collection-errors",
-                        "--junitxml=" + path], cwd=repo, env=env,
-                       stdout=subprocess.DEVNULL, stderr=subprocess.DEVNULL,
-                       preexec_fn=lambda: signal.signal(signal.SIGINT, signal.SIG_DFL))
+        # TVM_SUITE_WALL: overall wall-clock limit (mutation runs: a mutant that hangs the suite is a failing suite)
+        wall = os.environ.get("TVM_SUITE_WALL") or ("240" if os.environ.get("TVM_PYTEST_TIMEOUT") else None)
+        proc = subprocess.Popen(["/venv/bin/python", "-m", "pytest", "-q", "-p", "no:cacheprovider",
+                                 "--timeout=" + os.environ.get("TVM_PYTEST_TIMEOUT", "900"),
+                                 "--continue-on-collection-errors", "--junitxml=" + path], cwd=repo, env=env,
+                                stdout=subprocess.DEVNULL, stderr=subprocess.DEVNULL, start_new_session=True,
+                                preexec_fn=lambda: signal.signal(signal.SIGINT, signal.SIG_DFL))
+        try:
+            proc.wait(timeout=float(wall) if wall else None)
+        except subprocess.TimeoutExpired:
+            os.killpg(proc.pid, signal.SIGKILL)
+            proc.wait()
+            print("baseline: suite did not finish within %s s" % wall)
+            return 1
         passed = set()
         for tc in ET.parse(path).getroot().iter("testcase"):
             if not any(c.tag in ("failure", "error", "skipped") for c in tc):
